@@ -97,12 +97,13 @@ type btScen struct {
 	Workers  int
 	Report   string // recorder | data | html
 	Explicit bool
+	Missing  int    // number of names that are not in the repository, listed first
 	Mode     string // dpor | s0
 	NoStrat  bool   // HTML: do not render the per-strategy reports (they are private to one worker and dominate the cost)
 }
 
 func (s btScen) String() string {
-	return fmt.Sprintf("assets=%d strategies=#%d workers=%d report=%s explicit=%v mode=%s strategyReports=%v", s.NAssets, s.Strats, s.Workers, s.Report, s.Explicit, s.Mode, !s.NoStrat)
+	return fmt.Sprintf("assets=%d unknown-names=%d strategies=#%d workers=%d report=%s explicit=%v mode=%s strategyReports=%v", s.NAssets, s.Missing, s.Strats, s.Workers, s.Report, s.Explicit, s.Mode, !s.NoStrat)
 }
 
 func btStrategies(v int) []strategy.Strategy {
@@ -190,7 +191,11 @@ func btScenario(s btScen) explore.Scenario {
 			bt.Workers, bt.LastDays, bt.Logger = s.Workers, 5, quietLogger
 			bt.Strategies = btStrategies(s.Strats)
 			if s.Explicit {
-				bt.Names = append([]string{}, names...)
+				// names the repository does not know come first: they must be skipped, not stop a worker
+				for i := 0; i < s.Missing; i++ {
+					bt.Names = append(bt.Names, fmt.Sprintf("unknown-%d", i))
+				}
+				bt.Names = append(bt.Names, names...)
 			} else {
 				// the in-memory repository lists a map: fix the order for determinism without naming the assets ourselves
 				got, _ := repo.Assets()
@@ -416,6 +421,18 @@ func btScens(tier string) []btScen {
 				}
 				for _, w := range []int{4, 8, 16} {
 					out = append(out, btScen{NAssets: na, Strats: sv, Workers: w, Report: rep, Explicit: sv == 1, Mode: "s0"})
+				}
+				// as many unknown names as workers (and one more), listed before the real assets
+				if rep != "html" && sv < 2 {
+					for _, w := range []int{1, 2} {
+						for _, miss := range []int{w, w + 1} {
+							mode := "dpor"
+							if na == 3 && !th {
+								mode = "s0"
+							}
+							out = append(out, btScen{NAssets: na, Missing: miss, Strats: sv, Workers: w, Report: rep, Explicit: true, Mode: mode})
+						}
+					}
 				}
 			}
 		}
